@@ -1,5 +1,9 @@
 //! C04 / C20 correspondence + oracle driver: seeded histories through the public TieredEngine API.
-//! usage: c04 --out DIR --n N [--replay FILE] [--shrink FILE]
+//! usage: c04 --out DIR --n N [--replay FILE] [--shrink FILE] [--filter-deletes]
+//!
+//! `--filter-deletes` (used by checks/c11.py, property C11 at the TieredEngine level) switches to a
+//! separate stream of histories that contain TieredEngine::batch_delete_by_metadata_filter; the
+//! default stream (C04 / C20) is untouched by it.
 //!
 //! Every history is run on the REAL engine (HnswBackend without persistence, real HotTier, real
 //! cache strategies LRU / learned / learned+semantic / A-B behind a decision-recording wrapper).
@@ -12,6 +16,8 @@ use kyrodb_engine::cache_strategy::{AbTestSplitter, CacheStrategy, LearnedCacheS
 use kyrodb_engine::coherence::{digest_embedding, VectorCoherenceToken, VectorIntegrityDigest};
 use kyrodb_engine::config::DistanceMetric;
 use kyrodb_engine::learned_cache::{AccessEvent, AccessType, LearnedCachePredictor};
+use kyrodb_engine::metadata_filter;
+use kyrodb_engine::proto::{metadata_filter::FilterType, AndFilter, ExactMatch, InMatch, MetadataFilter, NotFilter, OrFilter};
 use kyrodb_engine::tiered_engine::{PointQueryTier, TieredEngine, TieredEngineConfig};
 use kyrodb_engine::{CacheLifecycleStats, CachedVector, QueryHashCache, SemanticAdapter};
 use serde_json::{json, Value};
@@ -33,6 +39,18 @@ struct Tok {
     dig: i64, // pool index, or -1 = VectorIntegrityDigest::ZERO
 }
 
+/// metadata filter over the interned keys / values (Model/Tiered.v `tfilter`)
+#[derive(Clone, Debug, PartialEq)]
+enum Filt {
+    All,                 // MetadataFilter { filter_type: None }
+    Exact(u8, u8),       // key index, value index
+    In(u8, Vec<u8>),
+    Not(Box<Filt>),
+    NotNone,             // NotFilter { filter: None }
+    And(Vec<Filt>),
+    Or(Vec<Filt>),
+}
+
 #[derive(Clone, Debug)]
 enum Op {
     Query(u64),
@@ -50,6 +68,8 @@ enum Op {
     Tick,
     PokeL1(bool, u64, usize, Tok),
     PokeHot(u64, usize, Meta, Tok),
+    /// TieredEngine::batch_delete_by_metadata_filter (only in `--filter-deletes` histories)
+    FilterDelete(Filt),
 }
 
 #[derive(Clone, Debug)]
@@ -147,6 +167,25 @@ fn meta_idx(m: &HashMap<String, String>) -> MetaI {
 }
 fn meta_i(m: &Meta) -> MetaI {
     m.iter().map(|(k, v)| (*k as u64, *v as u64)).collect()
+}
+
+fn filt_proto(f: &Filt) -> MetadataFilter {
+    let mf = |t: FilterType| MetadataFilter { filter_type: Some(t) };
+    match f {
+        Filt::All => MetadataFilter { filter_type: None },
+        Filt::Exact(k, v) => mf(FilterType::Exact(ExactMatch { key: KEYS[*k as usize].to_string(), value: VALS[*v as usize].to_string() })),
+        Filt::In(k, vs) => mf(FilterType::InMatch(InMatch {
+            key: KEYS[*k as usize].to_string(),
+            values: vs.iter().map(|v| VALS[*v as usize].to_string()).collect(),
+        })),
+        Filt::Not(g) => mf(FilterType::NotFilter(Box::new(NotFilter { filter: Some(Box::new(filt_proto(g))) }))),
+        Filt::NotNone => mf(FilterType::NotFilter(Box::new(NotFilter { filter: None }))),
+        Filt::And(fs) => mf(FilterType::AndFilter(AndFilter { filters: fs.iter().map(filt_proto).collect() })),
+        Filt::Or(fs) => mf(FilterType::OrFilter(OrFilter { filters: fs.iter().map(filt_proto).collect() })),
+    }
+}
+fn metai_map(m: &MetaI) -> HashMap<String, String> {
+    m.iter().map(|(k, v)| (KEYS[*k as usize].to_string(), VALS[*v as usize].to_string())).collect()
 }
 
 struct Pools {
@@ -514,6 +553,262 @@ fn directed() -> Vec<Case> {
 }
 
 // ------------------------------------------------------------------------------------------------
+// `--filter-deletes` stream (C11 at the TieredEngine level): its own generator and directed histories
+// ------------------------------------------------------------------------------------------------
+/// metadata with up to three keys (dense: documents must share and lose keys)
+fn gen_meta_rich(r: &mut Rng) -> Meta {
+    let mut m: Meta = vec![];
+    for k in 0..KEYS.len() as u8 {
+        if r.chance(3, 5) {
+            m.push((k, r.below(VALS.len() as u64) as u8));
+        }
+    }
+    m
+}
+fn gen_atom(r: &mut Rng) -> Filt {
+    let k = r.below(KEYS.len() as u64) as u8;
+    if r.chance(2, 3) {
+        Filt::Exact(k, r.below(VALS.len() as u64) as u8)
+    } else {
+        let n = r.below(3);
+        Filt::In(k, (0..n).map(|_| r.below(VALS.len() as u64) as u8).collect())
+    }
+}
+fn gen_filt(r: &mut Rng, depth: u32) -> Filt {
+    let w = r.below(100);
+    if depth == 0 || w < 46 {
+        return gen_atom(r);
+    }
+    match w {
+        46..=59 => Filt::Not(Box::new(gen_filt(r, depth - 1))),
+        60..=74 => {
+            let n = r.range(1, 3);
+            Filt::And((0..n).map(|_| gen_filt(r, depth - 1)).collect())
+        }
+        75..=89 => {
+            let n = r.range(1, 3);
+            Filt::Or((0..n).map(|_| gen_filt(r, depth - 1)).collect())
+        }
+        90..=92 => Filt::All,
+        93..=94 => Filt::NotNone,
+        95..=96 => Filt::And(vec![]),
+        97..=98 => Filt::Or(vec![]),
+        _ => Filt::Not(Box::new(Filt::NotNone)),
+    }
+}
+
+/// Histories for the filtered delete: documents stay hot-resident (soft limit 3 / 100, hard 2 / 4),
+/// receive merge AND replace metadata updates (a replace usually carries fewer keys than the
+/// document has, i.e. drops keys), and filtered deletes run both before and after drains.  No
+/// mirror pokes (the premise of C11tier_mirror_meta_fresh); L1a pokes are allowed.
+fn gen_case_fd(r: &mut Rng) -> Case {
+    let strategy = r.below(5) as u8;
+    let caps = [1usize, 2, 8];
+    let cap_a = *r.pick(&caps);
+    let cap_b = *r.pick(&caps);
+    let hard = *r.pick(&[2usize, 4, 4]);
+    let soft = *r.pick(&[3usize, 100, 100]);
+    let cosine = r.chance(1, 3);
+    let n_init = r.below(3) as usize;
+    let init: Vec<(usize, Meta)> = (0..n_init).map(|_| (r.below(7) as usize, gen_meta_rich(r))).collect();
+    let max_el = *r.pick(&[512usize, 512, 7, 8]);
+    let n = r.range(5, 28) as usize;
+    let mut live: Vec<u64> = (0..n_init as u64).collect();
+    // generator-side approximation of the canonical metadata (id -> meta) and of the (key, value)
+    // bindings that a replace dropped recently: only used to aim updates and filters
+    let mut gmeta: HashMap<u64, Meta> = init.iter().enumerate().map(|(i, (_, m))| (i as u64, m.clone())).collect();
+    let mut gdrop: Vec<(u8, u8)> = vec![];
+    let mut ops = vec![];
+    while ops.len() < n {
+        let mut id = r.below(N_IDS);
+        if !live.is_empty() && r.chance(3, 4) {
+            id = *r.pick(&live);
+        }
+        let w = r.below(100);
+        let op = match w {
+            0..=23 => {
+                let v = gen_vec(r);
+                let m = gen_meta_rich(r);
+                if valid_idx(v, cosine) {
+                    if !live.contains(&id) {
+                        live.push(id);
+                        live.sort_unstable();
+                    }
+                    gmeta.insert(id, m.clone());
+                }
+                Op::Insert(id, v, m)
+            }
+            24..=45 => {
+                let cur = gmeta.get(&id).cloned().unwrap_or_default();
+                let (m, merge) = if !cur.is_empty() && r.chance(1, 2) {
+                    // a replace that drops exactly one of the document's keys (and sometimes rebinds another)
+                    let drop = r.below(cur.len() as u64) as usize;
+                    let mut m: Meta = cur.iter().enumerate().filter(|(i, _)| *i != drop).map(|(_, kv)| *kv).collect();
+                    if !m.is_empty() && r.chance(1, 4) {
+                        let j = r.below(m.len() as u64) as usize;
+                        m[j].1 = r.below(VALS.len() as u64) as u8;
+                    }
+                    (m, false)
+                } else if r.chance(2, 3) {
+                    // a single binding: as a replace it drops the others, as a merge it keeps them
+                    let k = r.below(KEYS.len() as u64) as u8;
+                    (vec![(k, r.below(VALS.len() as u64) as u8)], r.chance(1, 2))
+                } else {
+                    (gen_meta_rich(r), r.chance(1, 2))
+                };
+                if gmeta.contains_key(&id) {
+                    if merge {
+                        let mut b: BTreeMap<u8, u8> = cur.iter().copied().collect();
+                        for (k, v) in &m {
+                            b.insert(*k, *v);
+                        }
+                        gmeta.insert(id, b.into_iter().collect());
+                    } else {
+                        for kv in cur.iter().filter(|(k, _)| !m.iter().any(|(k2, _)| k2 == k)) {
+                            gdrop.push(*kv);
+                        }
+                        gmeta.insert(id, m.clone());
+                    }
+                }
+                Op::UpdMeta(id, m, merge)
+            }
+            46..=63 => {
+                if !gdrop.is_empty() && r.chance(3, 5) {
+                    // aim at a binding some replace dropped: the canonical record no longer has it
+                    let (k, v) = *r.pick(&gdrop);
+                    let atom = if r.chance(2, 3) { Filt::Exact(k, v) } else { Filt::In(k, vec![r.below(VALS.len() as u64) as u8, v]) };
+                    Op::FilterDelete(match r.below(10) {
+                        0..=5 => atom,
+                        6..=7 => Filt::Or(vec![gen_atom(r), atom]),
+                        8 => Filt::And(vec![atom, Filt::Not(Box::new(gen_atom(r)))]),
+                        _ => Filt::Not(Box::new(Filt::Not(Box::new(atom)))),
+                    })
+                } else {
+                    Op::FilterDelete(gen_filt(r, 3))
+                }
+            }
+            64..=69 => Op::Flush(r.chance(2, 3)),
+            70..=72 => Op::Tick,
+            73..=76 => Op::Query(id),
+            77..=79 => Op::GetDoc(id),
+            80..=81 => Op::GetMeta(id),
+            82..=83 => Op::Bulk(r.chance(3, 4), gen_ids(r, 3)),
+            84..=86 => {
+                live.retain(|x| *x != id);
+                gmeta.remove(&id);
+                Op::Delete(id)
+            }
+            87..=88 => {
+                let ids = gen_ids(r, 2);
+                live.retain(|x| !ids.contains(x));
+                for i in &ids {
+                    gmeta.remove(i);
+                }
+                Op::BatchDelete(ids)
+            }
+            89..=93 => {
+                let k = r.range(1, 2);
+                let docs: Vec<(u64, usize, Meta)> = (0..k).map(|_| (r.below(N_IDS), gen_vec(r), gen_meta_rich(r))).collect();
+                for (i, v, m) in &docs {
+                    if valid_idx(*v, cosine) {
+                        if !live.contains(i) {
+                            live.push(*i);
+                            live.sort_unstable();
+                        }
+                        gmeta.insert(*i, m.clone());
+                    }
+                }
+                Op::BulkLoad(docs)
+            }
+            94..=96 => Op::Exists(id),
+            _ => {
+                let v = r.below(N_POOL as u64) as usize;
+                let b = strategy == 4 && r.chance(1, 2);
+                Op::PokeL1(b, id, v, Tok { ver: r.below(4), dig: if r.chance(1, 4) { -1 } else { v as i64 } })
+            }
+        };
+        ops.push(op);
+    }
+    Case { strategy, cap_a, cap_b, soft, hard, cosine, init, allow_orphans: false, max_el, ops }
+}
+
+/// Directed filtered-delete histories (always first in the `--filter-deletes` stream).
+fn directed_fd() -> Vec<Case> {
+    let base = Case { strategy: 0, cap_a: 2, cap_b: 2, soft: 100, hard: 4, cosine: false, init: vec![], allow_orphans: false, max_el: 512, ops: vec![] };
+    let both: Meta = vec![(0, 0), (1, 1)];
+    let only1: Meta = vec![(1, 1)];
+    let mut out = vec![];
+    // 1. the witness of C11tier_mirror_merge_variant_refuted: hot-resident document, a replace drops k0,
+    //    filtered delete on the dropped key must select nothing; then a delete on the kept key removes it
+    out.push(Case {
+        ops: vec![
+            Op::Insert(1, 1, both.clone()),
+            Op::UpdMeta(1, only1.clone(), false),
+            Op::FilterDelete(Filt::Exact(0, 0)),
+            Op::GetMeta(1),
+            Op::FilterDelete(Filt::Exact(1, 1)),
+            Op::Exists(1),
+        ],
+        ..base.clone()
+    });
+    // 2. the same after a forced drain (the cold index alone answers), and with a second document that
+    //    still carries the key
+    out.push(Case {
+        ops: vec![
+            Op::Insert(1, 1, both.clone()),
+            Op::Insert(2, 2, vec![(0, 0)]),
+            Op::UpdMeta(1, only1.clone(), false),
+            Op::Flush(true),
+            Op::FilterDelete(Filt::Exact(0, 0)),
+            Op::Exists(1),
+            Op::Exists(2),
+        ],
+        ..base.clone()
+    });
+    // 3. merge keeps the key (the document IS selected), replace by the empty map, negation and
+    //    empty AND / OR, duplicates across the two tiers counted once
+    out.push(Case {
+        strategy: 4,
+        ops: vec![
+            Op::Insert(1, 1, both.clone()),
+            Op::Insert(2, 2, both.clone()),
+            Op::Insert(3, 3, vec![(2, 2)]),
+            Op::UpdMeta(1, vec![(2, 0)], true),
+            Op::UpdMeta(2, vec![], false),
+            Op::FilterDelete(Filt::Or(vec![])),
+            Op::FilterDelete(Filt::NotNone),
+            Op::FilterDelete(Filt::And(vec![Filt::Exact(0, 0), Filt::Not(Box::new(Filt::In(2, vec![1, 2])))])),
+            Op::Bulk(true, vec![1, 2, 3]),
+            Op::FilterDelete(Filt::Not(Box::new(Filt::In(2, vec![2])))),
+            Op::FilterDelete(Filt::And(vec![])),
+            Op::FilterDelete(Filt::All),
+        ],
+        ..base.clone()
+    });
+    // 4. mixed residency: one document drained to the cold tier only, one re-inserted (hot again), a
+    //    replace on each, bulk load over a hot-resident one (mirror dropped), filtered deletes in between
+    out.push(Case {
+        hard: 2,
+        soft: 3,
+        ops: vec![
+            Op::Insert(0, 0, both.clone()),
+            Op::Insert(1, 1, both.clone()),
+            Op::Flush(true),
+            Op::Insert(1, 2, both.clone()),
+            Op::UpdMeta(0, vec![(0, 1)], false),
+            Op::UpdMeta(1, vec![(0, 1)], false),
+            Op::FilterDelete(Filt::Exact(1, 1)),
+            Op::Insert(2, 3, both.clone()),
+            Op::BulkLoad(vec![(2, 4, only1.clone())]),
+            Op::FilterDelete(Filt::In(0, vec![0, 2])),
+            Op::FilterDelete(Filt::Exact(0, 1)),
+        ],
+        ..base.clone()
+    });
+    out
+}
+
+// ------------------------------------------------------------------------------------------------
 // running a case on the real engine
 // ------------------------------------------------------------------------------------------------
 struct RunResult {
@@ -524,6 +819,10 @@ struct RunResult {
     resurrections: u64,
     hot_bound_excess: u64,
     notes: HashMap<&'static str, u64>,
+    /// filtered deletes: [issued, removed >= 1 document, issued while a hot-resident document had
+    /// received a key-dropping replace, selection would differ if the mirror had merged every replace,
+    /// issued after a drain that left cold-only documents]
+    fd: [u64; 5],
 }
 
 fn tier_code(t: PointQueryTier) -> u8 {
@@ -620,9 +919,18 @@ fn run_case(c: &Case) -> RunResult {
     for (i, (v, m)) in c.init.iter().enumerate() {
         shadow.insert(i as u64, (p.vbits[*v].clone(), meta_i(m)));
     }
-    let mut res = RunResult { outs: vec![], snaps: vec![], adm: vec![], fail: None, resurrections: 0, hot_bound_excess: 0, notes: HashMap::new() };
+    let mut res = RunResult { outs: vec![], snaps: vec![], adm: vec![], fail: None, resurrections: 0, hot_bound_excess: 0, notes: HashMap::new(), fd: [0; 5] };
     let (mut prev, _) = snapshot(&engine, &st, &p, &ids);
     let mut hot_poked_new = false;
+    // filtered-delete bookkeeping: has a mirror entry ever been planted (then the mirror metadata is
+    // harness-made and the exactness oracle does not apply); per hot-resident id, the metadata its
+    // mirror WOULD hold if every replace had been applied as a merge, and whether a replace dropped
+    // a key while the document was hot-resident
+    let mut mirror_planted = false;
+    let mut merged_view: BTreeMap<u64, MetaI> = BTreeMap::new();
+    let mut dropped_while_hot: HashSet<u64> = HashSet::new();
+    // (expected ids, returned count, canonical records before the call)
+    let mut fd_pending: Option<(Vec<u64>, Option<u64>, Vec<(u64, Bits, MetaI, u64)>)> = None;
     let merge_meta = |old: &MetaI, new: &Meta, merge: bool| -> MetaI {
         let mut b: BTreeMap<u64, u64> = if merge { old.iter().copied().collect() } else { BTreeMap::new() };
         for (k, v) in new {
@@ -754,7 +1062,15 @@ fn run_case(c: &Case) -> RunResult {
                 Ok(b) => {
                     let present = shadow.contains_key(id);
                     if let Some(e) = shadow.get_mut(id) {
-                        e.1 = merge_meta(&e.1, m, *merge);
+                        let new = merge_meta(&e.1, m, *merge);
+                        if b && prev.hot.iter().any(|h| h.0 == *id) {
+                            if !*merge && e.1.iter().any(|(k, _)| !new.iter().any(|(k2, _)| k2 == k)) {
+                                dropped_while_hot.insert(*id);
+                            }
+                            let mv = merged_view.entry(*id).or_insert_with(|| e.1.clone());
+                            *mv = merge_meta(mv, m, true);
+                        }
+                        e.1 = new;
                     }
                     if b != present {
                         set_fail("write-result", format!("update_metadata({}) returned {} but the document was {}", id, b, if present { "present" } else { "absent" }));
@@ -837,8 +1153,52 @@ fn run_case(c: &Case) -> RunResult {
                 if !prev.hot.iter().any(|h| h.0 == *id) {
                     hot_poked_new = true;
                 }
+                mirror_planted = true;
                 engine.hot_tier().insert_with_coherence(*id, p.vecs[*v].clone(), meta_map(m), p.tok(t));
                 Out::None
+            }
+            Op::FilterDelete(f) => {
+                let pf = filt_proto(f);
+                // canonical metadata of every id, read through the cold tier BEFORE the call, judged by the
+                // engine's own reference matcher
+                let mut expected: Vec<u64> = vec![];
+                let mut before: Vec<(u64, Bits, MetaI, u64)> = vec![];
+                for &id in &ids {
+                    if let Some((v, t)) = engine.cold_tier().fetch_document_with_coherence(id) {
+                        let m = engine.cold_tier().fetch_metadata(id).unwrap_or_default();
+                        if metadata_filter::matches(&pf, &m) {
+                            expected.push(id);
+                        }
+                        before.push((id, bits(&v), meta_idx(&m), t.version));
+                    }
+                }
+                res.fd[0] += 1;
+                if prev.hot.iter().any(|h| dropped_while_hot.contains(&h.0)) {
+                    res.fd[2] += 1;
+                }
+                if prev.hot.iter().any(|h| {
+                    let canon = prev.cold.iter().find(|c| c.0 == h.0).map(|c| c.2.clone());
+                    match (merged_view.get(&h.0), canon) {
+                        (Some(mv), Some(cm)) => metadata_filter::matches(&pf, &metai_map(mv)) != metadata_filter::matches(&pf, &metai_map(&cm)),
+                        _ => false,
+                    }
+                }) {
+                    res.fd[3] += 1;
+                }
+                if prev.cold.iter().any(|c| !prev.hot.iter().any(|h| h.0 == c.0)) && prev.ctr[3] > 0 {
+                    res.fd[4] += 1;
+                }
+                match engine.batch_delete_by_metadata_filter(&pf) {
+                    Ok(n) => {
+                        fd_pending = Some((expected, Some(n), before));
+                        Out::Count(Some(n))
+                    }
+                    Err(e) => {
+                        set_fail("unexpected-error", format!("batch_delete_by_metadata_filter failed: {}", e));
+                        fd_pending = Some((expected, None, before));
+                        Out::None
+                    }
+                }
             }
         };
         let adm = st.top.log.lock().unwrap().last().copied().unwrap_or(false);
@@ -846,6 +1206,67 @@ fn run_case(c: &Case) -> RunResult {
         if let Some(pr) = problem {
             set_fail("harness-observation", pr);
         }
+        // C11 (tiered level): the filtered delete removed exactly the documents whose canonical metadata
+        // matched, reported their number, left every other canonical record as it was and left no mirror
+        // entry of a removed document behind
+        if let Some((expected, ret, before)) = fd_pending.take() {
+            let gone: Vec<u64> = before.iter().map(|b| b.0).filter(|i| !snap.cold.iter().any(|c| c.0 == *i)).collect();
+            if !gone.is_empty() {
+                res.fd[1] += 1;
+            }
+            if mirror_planted {
+                // harness-planted mirror metadata takes part in the selection by design: follow the engine
+                for i in &gone {
+                    shadow.remove(i);
+                }
+            } else {
+                for i in &expected {
+                    shadow.remove(i);
+                }
+                let matching_meta = |i: &u64| before.iter().find(|b| b.0 == *i).map(|b| b.2.clone());
+                if gone != expected {
+                    let extra: Vec<u64> = gone.iter().copied().filter(|i| !expected.contains(i)).collect();
+                    let missed: Vec<u64> = expected.iter().copied().filter(|i| !gone.contains(i)).collect();
+                    set_fail(
+                        "filter-delete-inexact",
+                        format!(
+                            "batch_delete_by_metadata_filter removed ids {:?}; the ids whose canonical metadata matched the filter (metadata_filter::matches over cold_tier().fetch_metadata before the call) are {:?}; removed although not matching: {:?} (canonical metadata {:?}); matching but kept: {:?}",
+                            gone, expected, extra, extra.iter().map(matching_meta).collect::<Vec<_>>(), missed
+                        ),
+                    );
+                } else if ret != Some(expected.len() as u64) {
+                    set_fail("filter-delete-count", format!("batch_delete_by_metadata_filter returned {:?} but {} documents matched and were removed", ret, expected.len()));
+                }
+                for b in &before {
+                    if let Some(c) = snap.cold.iter().find(|c| c.0 == b.0) {
+                        if c != b {
+                            set_fail("filter-delete-survivor-changed", format!("document {} survived the filtered delete but its canonical record changed from {:?} to {:?}", b.0, b, c));
+                        }
+                    }
+                }
+                if let Some(c) = snap.cold.iter().find(|c| !before.iter().any(|b| b.0 == c.0)) {
+                    set_fail("filter-delete-survivor-changed", format!("document {} appeared during a filtered delete", c.0));
+                }
+                if let Some(h) = snap.hot.iter().find(|h| expected.contains(&h.0)) {
+                    set_fail("filter-delete-mirror-left", format!("the mirror entry of removed document {} survived the filtered delete", h.0));
+                }
+            }
+        }
+        // the merged-view bookkeeping follows hot residency: forget ids that left the mirror or were rewritten
+        if matches!(op, Op::Insert(..) | Op::BulkLoad(..) | Op::Delete(..) | Op::BatchDelete(..)) {
+            let touched: Vec<u64> = match op {
+                Op::Insert(i, ..) | Op::Delete(i) => vec![*i],
+                Op::BulkLoad(d) => d.iter().map(|x| x.0).collect(),
+                Op::BatchDelete(b) => b.clone(),
+                _ => vec![],
+            };
+            for i in touched {
+                merged_view.remove(&i);
+                dropped_while_hot.remove(&i);
+            }
+        }
+        merged_view.retain(|i, _| snap.hot.iter().any(|h| h.0 == *i));
+        dropped_while_hot.retain(|i| snap.hot.iter().any(|h| h.0 == *i));
         // canonical store == latest successful writes, after EVERY operation (drains/audits included)
         let cold_now: BTreeMap<u64, (Bits, MetaI)> = snap.cold.iter().map(|(i, v, m, _)| (*i, (v.clone(), m.clone()))).collect();
         if cold_now != shadow {
@@ -891,6 +1312,53 @@ fn meta_from(v: &Value) -> Meta {
 fn ids_from(v: &Value) -> Vec<u64> {
     v.as_array().unwrap().iter().map(|x| x.as_u64().unwrap()).collect()
 }
+fn filt_json(f: &Filt) -> Value {
+    match f {
+        Filt::All => json!(["all"]),
+        Filt::Exact(k, v) => json!(["eq", k, v]),
+        Filt::In(k, vs) => json!(["in", k, vs]),
+        Filt::Not(g) => json!(["not", filt_json(g)]),
+        Filt::NotNone => json!(["notnone"]),
+        Filt::And(fs) => json!(["and", fs.iter().map(filt_json).collect::<Vec<_>>()]),
+        Filt::Or(fs) => json!(["or", fs.iter().map(filt_json).collect::<Vec<_>>()]),
+    }
+}
+fn filt_from(v: &Value) -> Filt {
+    let u = |k: usize| v[k].as_u64().unwrap() as u8;
+    match v[0].as_str().unwrap() {
+        "all" => Filt::All,
+        "eq" => Filt::Exact(u(1), u(2)),
+        "in" => Filt::In(u(1), v[2].as_array().unwrap().iter().map(|x| x.as_u64().unwrap() as u8).collect()),
+        "not" => Filt::Not(Box::new(filt_from(&v[1]))),
+        "notnone" => Filt::NotNone,
+        "and" => Filt::And(v[1].as_array().unwrap().iter().map(filt_from).collect()),
+        "or" => Filt::Or(v[1].as_array().unwrap().iter().map(filt_from).collect()),
+        x => panic!("unknown filter {}", x),
+    }
+}
+fn filt_text(f: &Filt) -> String {
+    match f {
+        Filt::All => "<unset filter_type>".to_string(),
+        Filt::Exact(k, v) => format!("{}=={:?}", KEYS[*k as usize], VALS[*v as usize]),
+        Filt::In(k, vs) => format!("{} in {:?}", KEYS[*k as usize], vs.iter().map(|v| VALS[*v as usize]).collect::<Vec<_>>()),
+        Filt::Not(g) => format!("NOT({})", filt_text(g)),
+        Filt::NotNone => "NOT(<no operand>)".to_string(),
+        Filt::And(fs) => format!("AND[{}]", fs.iter().map(filt_text).collect::<Vec<_>>().join(", ")),
+        Filt::Or(fs) => format!("OR[{}]", fs.iter().map(filt_text).collect::<Vec<_>>().join(", ")),
+    }
+}
+fn q_filt(f: &Filt) -> String {
+    let list = |fs: &Vec<Filt>| format!("[{}]", fs.iter().map(q_filt).collect::<Vec<_>>().join("; "));
+    match f {
+        Filt::All => "TAll".to_string(),
+        Filt::Exact(k, v) => format!("(TExact {} {})", k, v),
+        Filt::In(k, vs) => format!("(TIn {} [{}]%N)", k, vs.iter().map(|x| x.to_string()).collect::<Vec<_>>().join(";")),
+        Filt::Not(g) => format!("(TNot {})", q_filt(g)),
+        Filt::NotNone => "TNotNone".to_string(),
+        Filt::And(fs) => format!("(TAnd {})", list(fs)),
+        Filt::Or(fs) => format!("(TOr {})", list(fs)),
+    }
+}
 fn op_raw(o: &Op) -> Value {
     match o {
         Op::Query(i) => json!(["Q", i]),
@@ -908,6 +1376,7 @@ fn op_raw(o: &Op) -> Value {
         Op::Tick => json!(["T"]),
         Op::PokeL1(b, i, v, t) => json!(["P1", b, i, v, t.ver, t.dig]),
         Op::PokeHot(i, v, m, t) => json!(["PH", i, v, meta_json(m), t.ver, t.dig]),
+        Op::FilterDelete(f) => json!(["FD", filt_json(f)]),
     }
 }
 fn op_from(v: &Value) -> Op {
@@ -928,6 +1397,7 @@ fn op_from(v: &Value) -> Op {
         "T" => Op::Tick,
         "P1" => Op::PokeL1(v[1].as_bool().unwrap(), u(2), u(3) as usize, Tok { ver: u(4), dig: v[5].as_i64().unwrap() }),
         "PH" => Op::PokeHot(u(1), u(2) as usize, meta_from(&v[3]), Tok { ver: u(4), dig: v[5].as_i64().unwrap() }),
+        "FD" => Op::FilterDelete(filt_from(&v[1])),
         x => panic!("unknown op {}", x),
     }
 }
@@ -948,6 +1418,7 @@ fn op_text(o: &Op) -> String {
         Op::Tick => "background tick (audit_hot_tier_coherence_if_due; threshold drain)".to_string(),
         Op::PokeL1(b, i, v, t) => format!("POKE L1a[{}].insert_cached(id {}, pool#{}, token(v{}, digest of pool#{}))", if *b { "B" } else { "A" }, i, v, t.ver, t.dig),
         Op::PokeHot(i, v, m, t) => format!("POKE hot_tier().insert_with_coherence(id {}, pool#{}, meta{:?}, token(v{}, digest of pool#{}))", i, v, m, t.ver, t.dig),
+        Op::FilterDelete(f) => format!("batch_delete_by_metadata_filter({})", filt_text(f)),
     }
 }
 fn case_json(c: &Case, r: Option<&RunResult>) -> Value {
@@ -1021,6 +1492,7 @@ fn q_op(o: &Op, adm: bool, off: usize) -> String {
         Op::Tick => "OTick".to_string(),
         Op::PokeL1(b, i, v, t) => format!("oP1 {} {} {} {}", b, i, v + off, q_tok(t, off)),
         Op::PokeHot(i, v, m, t) => format!("oPH {} {} {} {}", i, v + off, q_meta(&meta_i(m)), q_tok(t, off)),
+        Op::FilterDelete(f) => format!("OFilterDelete {}", q_filt(f)),
     }
 }
 fn q_out(o: &Out, vb: &(usize, Vec<Bits>)) -> String {
@@ -1060,11 +1532,17 @@ fn q_snap(s: &Snapshot, vb: &(usize, Vec<Bits>)) -> String {
         s.ctr[0], s.ctr[1], s.ctr[2], s.ctr[3]
     )
 }
-fn coq_case(id: usize, c: &Case, r: &RunResult) -> String {
+fn coq_case(id: usize, c: &Case, r: &RunResult, fd: bool) -> String {
     let p = Pools::new(c.cosine);
     let off = if c.cosine { N_POOL } else { 0 };
     let vb = (off, p.vbits.clone());
-    let ops: Vec<String> = c.ops.iter().zip(r.adm.iter()).map(|(o, a)| q_op(o, *a, off)).collect();
+    // in the `--filter-deletes` stream the history is a list of `opx` (OApi o | OFilterDelete f)
+    let ops: Vec<String> = c
+        .ops
+        .iter()
+        .zip(r.adm.iter())
+        .map(|(o, a)| if fd && !matches!(o, Op::FilterDelete(_)) { format!("OApi ({})", q_op(o, *a, off)) } else { q_op(o, *a, off) })
+        .collect();
     let obs: Vec<String> = r.outs.iter().zip(r.snaps.iter()).map(|(o, s)| format!("({}, {})", q_out(o, &vb), q_snap(s, &vb))).collect();
     format!(
         "CS {} {} (mkCfg {} {} {} {} {}) [{}]\n   [{}]\n   [{}]",
@@ -1087,8 +1565,8 @@ fn coq_pool(cosine: bool) -> String {
         .collect::<Vec<_>>()
         .join("; ")
 }
-fn cases_file(body: &str) -> String {
-    format!(
+fn cases_file(body: &str, fd: bool) -> String {
+    let text = format!(
         r#"From Coq Require Import List NArith ZArith Bool Arith.
 From Kyro Require Import Model.TMap Model.Tiered.
 Import ListNotations.
@@ -1127,7 +1605,10 @@ Definition vl (cosine : bool) (v : vec) : bool :=
 "#,
         coq_pool(false),
         coq_pool(true)
-    ) + body
+    );
+    // the `--filter-deletes` stream runs the extended operation type of Model/Tiered.v
+    let text = if fd { text.replace("cs_ops : list op;", "cs_ops : list opx;") } else { text };
+    text + body
 }
 
 fn main() {
@@ -1137,6 +1618,7 @@ fn main() {
     let mut n = 300usize;
     let mut replay: Option<String> = None;
     let mut shrink: Option<String> = None;
+    let mut fd_mode = false;
     let mut i = 1;
     while i < args.len() {
         match args[i].as_str() {
@@ -1144,6 +1626,7 @@ fn main() {
             "--n" => { n = args[i + 1].parse().unwrap(); i += 1 }
             "--replay" => { replay = Some(args[i + 1].clone()); i += 1 }
             "--shrink" => { shrink = Some(args[i + 1].clone()); i += 1 }
+            "--filter-deletes" => fd_mode = true,
             _ => {}
         }
         i += 1;
@@ -1198,6 +1681,29 @@ fn main() {
     let mut n_directed = 0;
     if let Some(p) = &replay {
         cases.push(load(p));
+    } else if fd_mode {
+        // C11 (tiered level): own corpus, own directed histories, own generator; the forks carry a
+        // distinct tag range so that the two streams never share a sub-seed
+        if let Ok(rd) = std::fs::read_dir("/verif/corpus/C11tier") {
+            let mut ps: Vec<_> = rd.filter_map(|e| e.ok()).map(|e| e.path()).collect();
+            ps.sort();
+            for p in ps {
+                if let Ok(s) = std::fs::read_to_string(&p) {
+                    if let Ok(v) = serde_json::from_str::<Value>(&s) {
+                        let cv = if v.get("case").is_some() { v["case"].clone() } else { v };
+                        cases.push(case_from_json(&cv));
+                    }
+                }
+            }
+        }
+        let d = directed_fd();
+        n_directed = d.len();
+        cases.extend(d);
+        let mut rng = Rng::from_env();
+        for k in 0..n {
+            let mut r = rng.fork(0x0C11_0000_0000 + k as u64);
+            cases.push(gen_case_fd(&mut r));
+        }
     } else {
         if let Ok(rd) = std::fs::read_dir("/verif/corpus/C04") {
             let mut ps: Vec<_> = rd.filter_map(|e| e.ok()).map(|e| e.path()).collect();
@@ -1220,6 +1726,10 @@ fn main() {
             cases.push(gen_case(&mut r));
         }
     }
+    // a replayed / corpus history containing a filtered delete is printed over `opx` as well
+    let fd_out = fd_mode || cases.iter().any(|c| c.ops.iter().any(|o| matches!(o, Op::FilterDelete(_))));
+    let mut fd_tot = [0u64; 5];
+    let mut fd_histories = 0u64;
     let t0 = Instant::now();
     let mut oracle_fail = vec![];
     let mut all = vec![];
@@ -1305,6 +1815,12 @@ fn main() {
         bump("served-from-cache/hot-after-rewrite", served_after_rewrite);
         resurrections += r.resurrections;
         excess += r.hot_bound_excess;
+        for k in 0..5 {
+            fd_tot[k] += r.fd[k];
+        }
+        if r.fd[0] > 0 {
+            fd_histories += 1;
+        }
         let key = format!("{:?}{:?}", c, r.outs);
         let fresh = distinct.insert(key);
         if fresh && (scrubs > 0 || served_after_rewrite > 0 || emergency > 0) {
@@ -1328,7 +1844,7 @@ fn main() {
             cur.push_str(";\n  ");
         }
         // the case literal is abstracted over the metric flag so that V/T/dc resolve in the right pool
-        let lit = coq_case(id, c, &r);
+        let lit = coq_case(id, c, &r, fd_out);
         let _ = write!(cur, "{}", lit);
         in_cur += 1;
     }
@@ -1339,11 +1855,12 @@ fn main() {
         let text = cases_file(&format!(
             "{}\nDefinition cases : list cs := [\n  {}\n].\nDefinition bad : list (N * N) := flat_map (fun x => let cz := cs_cos x in match first_diff 0 (trace dg (vl cz) (cs_cfg x) (init (cs_init x)) (cs_ops x)) (cs_obs x) with None => [] | Some k => [(cs_id x, N.of_nat k)] end) cases.\nGoal True. idtac \"@@bad\". Abort.\nEval vm_compute in bad.\nGoal True. idtac \"@@count\". Abort.\nEval vm_compute in (N.of_nat (length cases), N.of_nat (fold_left (fun a x => a + length (cs_ops x)) cases 0)).\n",
             "", body
-        ));
+        ), fd_out);
+        let text = if fd_out { text.replace("first_diff 0 (trace dg", "first_diff 0 (tracex dg") } else { text };
         std::fs::write(format!("{}/cases_{}.v", out, k), text).unwrap();
     }
     drop(bump);
-    let summary = json!({
+    let mut summary = json!({
         "cases": cases.len(), "directed": n_directed, "shards": shards.len(), "ops": total_ops,
         "oracle_failures": oracle_fail,
         "distinct": distinct.len(), "nontrivial": nontrivial, "nontrivial_c20": nontrivial_c20,
@@ -1351,6 +1868,16 @@ fn main() {
         "histogram": hist, "samples": samples,
         "run_seconds": t0.elapsed().as_secs_f64(),
     });
+    if fd_out {
+        summary["filter_deletes"] = json!({
+            "histories_with_filtered_delete": fd_histories,
+            "filtered_deletes": fd_tot[0],
+            "removed_at_least_one_document": fd_tot[1],
+            "with_hot_resident_document_after_key_dropping_replace": fd_tot[2],
+            "selection_differs_if_mirror_merged_replaces": fd_tot[3],
+            "with_cold_only_documents_after_a_drain": fd_tot[4],
+        });
+    }
     std::fs::write(format!("{}/summary.json", out), serde_json::to_string_pretty(&summary).unwrap()).unwrap();
     std::fs::write(format!("{}/all_cases.json", out), serde_json::to_string(&all).unwrap()).unwrap();
     println!("c04: {} cases, {} ops, {} oracle failures, {:.1}s", cases.len(), total_ops, summary["oracle_failures"].as_array().unwrap().len(), t0.elapsed().as_secs_f64());
